@@ -204,6 +204,14 @@ def run_extraction(ex: Extraction, report):
             if missing:
                 raise LostAnchor("fields %s not found in %s %s" % (missing, kind, name))
             rec["rewrites"].append({"rule": "R5 field projection", "kept": keep, "dropped": list(reversed(dropped))})
+    elif ex.mode == "const":
+        m = re.search(r"\b(pub\s+)?(const|static)\s+%s\b" % re.escape(ex.args["name"]), msk)
+        if not m:
+            raise LostAnchor("const %s not found in %s" % (ex.args["name"], ex.args["file"]))
+        e = _stmt_end(msk, m.start())
+        t = SrcText.from_file_slice(src, m.start(), e)
+        rec["item"] = "const %s" % ex.args["name"]
+        rec["lines"] = [src.count("\n", 0, m.start()) + 1, src.count("\n", 0, e) + 1]
     elif ex.mode in ("body", "item"):
         s, o, c = _locate(ex, src, msk)
         rec["item"] = (ex.args.get("impl", "") + "::" if "impl" in ex.args else "") + "fn " + ex.args.get("fn", "?")
